@@ -26,6 +26,12 @@ var fields = map[string]bool{"eventBuf": true, "eventCbEnabled": true, "cachedOb
 	"items": true, "VaryingInformers": true, "ResourceInformers": true}
 
 var sets = map[string][]target{
+	// what Shutdown() has to get through before it reaches the queues, and who else takes those locks
+	"C17": {
+		{"pkg/shell-operator/operator.go", []string{"ShellOperator.Shutdown"}},
+		{"pkg/kube_events_manager/kube_events_manager.go", []string{"kubeEventsManager.AddMonitor", "kubeEventsManager.HasMonitor", "kubeEventsManager.GetMonitor", "kubeEventsManager.StartMonitor", "kubeEventsManager.StopMonitor", "kubeEventsManager.PauseHandleEvents"}},
+		{"pkg/schedule_manager/schedule_manager.go", []string{"scheduleManager.Stop"}},
+	},
 	"C01": {
 		{"pkg/kube_events_manager/resource_informer.go", []string{"resourceInformer.handleWatchEvent", "resourceInformer.getCachedObjects", "resourceInformer.enableKubeEventCb", "resourceInformer.loadExistedObjects"}},
 		{"pkg/kube_events_manager/monitor.go", []string{"monitor.EnableKubeEventCb", "monitor.CreateInformers", "monitor.Snapshot"}},
@@ -109,7 +115,8 @@ func walkFunc(fd *ast.FuncDecl, out *[]string) {
 					}
 				}
 			case "putEvent", "enableKubeEventCb", "getCachedObjects", "Store", "RangeValue", "Range", "start", "Handler",
-				"waitForTask", "addAfter", "remove", "addFirst", "addLast", "withLock", "withRLock", "Done", "cancel", "AddLast", "DoWithLock", "GetMain", "GetByName":
+				"waitForTask", "addAfter", "remove", "addFirst", "addLast", "withLock", "withRLock", "Done", "cancel", "AddLast", "DoWithLock", "GetMain", "GetByName",
+				"CreateInformers", "PauseHandleEvents", "Stop", "WaitStopWithTimeout", "NewMonitor":
 				*out = append(*out, "  call "+last)
 			}
 		case *ast.SelectorExpr:
